@@ -105,10 +105,67 @@ func classes(unit string, c Case) []string {
 	for _, k := range kk {
 		cls = append(cls, "expect-kind:"+k)
 	}
+	cls = append(cls, gitClasses(c)...)
 	if c.OldAlt != nil {
 		cls = append(cls, "reordered-rendering:yes")
 	} else {
 		cls = append(cls, "reordered-rendering:no")
+	}
+	return cls
+}
+
+// gitClasses names what the commits record about files besides contents.
+func gitClasses(c Case) []string {
+	in := func(l []string, p string) bool {
+		for _, q := range l {
+			if q == p {
+				return true
+			}
+		}
+		return false
+	}
+	var cls []string
+	add := func(s string) {
+		if !in(cls, s) {
+			cls = append(cls, s)
+		}
+	}
+	diagFile := map[string]bool{}
+	for _, d := range c.Expected {
+		diagFile[d.File] = true
+	}
+	for _, f := range c.Old {
+		x0, x1 := in(c.Exec[0], f.Path), in(c.Exec[1], f.Path)
+		nt, inNew := textOf(c.New, f.Path)
+		switch {
+		case x0 && !inNew:
+			add("git-mode:100755-file-deleted")
+		case x0 && x1:
+			add("git-mode:100755-in-both-commits")
+		case x0:
+			add("git-mode:100755-to-100644")
+		case x1 && inNew:
+			add("git-mode:100644-to-100755")
+		}
+		if inNew && x0 != x1 && nt == f.Text {
+			add("git-mode:only-the-mode-changes")
+		}
+		if x0 && diagFile[f.Path] {
+			add("git-mode:100755-in-HEAD~-on-a-file-with-diagnostics")
+		}
+	}
+	for _, f := range c.New {
+		if _, inOld := textOf(c.Old, f.Path); !inOld && in(c.Exec[1], f.Path) {
+			add("git-mode:100755-file-added")
+		}
+	}
+	if len(cls) == 0 {
+		add("git-mode:100644-everywhere")
+	}
+	if c.Packed {
+		add("git-storage:packed")
+	} else {
+		add("git-storage:loose")
 	}
 	return cls
 }
@@ -125,7 +182,7 @@ func sampleOf(c Case) interface{} {
 	for _, f := range c.New {
 		bytes += len(f.Text)
 	}
-	return map[string]interface{}{"old_files": oldP, "new_files": newP, "new_bytes": bytes, "edits": c.Edits, "expected": whats(c.Expected), "reordered_rendering": c.OldAlt != nil}
+	return map[string]interface{}{"old_files": oldP, "new_files": newP, "new_bytes": bytes, "edits": c.Edits, "expected": whats(c.Expected), "reordered_rendering": c.OldAlt != nil, "exec_in_old": c.Exec[0], "exec_in_new": c.Exec[1], "packed": c.Packed}
 }
 
 func runCase(t ev.TB, root, unit string, c Case) {
@@ -165,18 +222,39 @@ func TestRenameLike(t *testing.T) {
 // compatible kind, so that every kind is exercised even in a tiny run.
 func TestFixedPairs(t *testing.T) {
 	root := scratchRoot(t)
-	for i, c := range fixedPairs() {
-		c := c
-		d := ev.DigestJSON(c)
-		ev.Case(d, nontrivial(c), classes("fixed-pairs", c)...)
-		ev.KeepSample("fixed-pairs", d, func() interface{} { return sampleOf(c) })
-		err := ev.Guard(func() error { return checkCase(root, c) })
-		if e, ok := err.(*envError); ok {
-			t.Fatalf("pair %d: %v", i, e)
+	// every pair with plain modes, and with every file carrying the
+	// executable bit in HEAD~ only, in HEAD only, in both (the last one in a
+	// packed repository)
+	variants := []string{"100644", "100755-in-HEAD~", "100755-in-HEAD", "100755-in-both+packed"}
+	for i, c0 := range fixedPairs() {
+		for vi, variant := range variants {
+			c := c0
+			var all [2][]string
+			for k, v := range [][]FileText{c.Old, c.New} {
+				for _, f := range v {
+					all[k] = append(all[k], f.Path)
+				}
+				all[k] = append(all[k], otherFile)
+			}
+			switch vi {
+			case 1:
+				c.Exec[0] = all[0]
+			case 2:
+				c.Exec[1] = all[1]
+			case 3:
+				c.Exec, c.Packed = all, true
+			}
+			d := ev.DigestJSON(c)
+			ev.Case(d, nontrivial(c), classes("fixed-pairs", c)...)
+			ev.KeepSample("fixed-pairs", d, func() interface{} { return sampleOf(c) })
+			err := ev.Guard(func() error { return checkCase(root, c) })
+			if e, ok := err.(*envError); ok {
+				t.Fatalf("pair %d (%s): %v", i, variant, e)
+			}
+			ev.Report(t, "fixed-pairs", c, err)
 		}
-		ev.Report(t, "fixed-pairs", c, err)
 	}
-	ev.Note("fixed-pairs", fmt.Sprintf("%d hand-written pairs", len(fixedPairs())))
+	ev.Note("fixed-pairs", fmt.Sprintf("%d hand-written pairs x %d file-mode variants %v", len(fixedPairs()), len(variants), variants))
 }
 
 // TestDeleteAndAdd: the smallest histories in which the second commit deletes
